@@ -33,7 +33,7 @@ fn pick_doc(r: &mut Rng, reference: &[RefFrame], n_committed: u64, unchunked_onl
 pub struct History { pub ops_terms: Vec<T>, pub outs: Vec<T>, pub violation: Option<String>, pub tags: Vec<String>, pub final_table: T, pub nontrivial: bool }
 
 /// run one adaptive history; `plan` decides op kinds, sizes are aimed using live WAL stats
-pub fn run_history(r: &mut Rng, nops: usize, profile: u64) -> History {
+pub fn run_history(r: &mut Rng, nops: usize, profile: u64, maintenance: bool) -> History {
     let mut d = Driver::new();
     let mut reference: Vec<RefFrame> = vec![];
     let mut committed_len = 0usize; // reference frames known committed
@@ -70,7 +70,8 @@ pub fn run_history(r: &mut Rng, nops: usize, profile: u64) -> History {
             Op::Update { target, payload, uri }
         } else if c < 80 && n_committed > 0 {
             Op::Delete { target: pick_doc(r, &reference, n_committed, false) }
-        } else if c < 90 { Op::Commit } else if c < 95 { Op::Reopen } else { Op::Crash };
+        } else if maintenance && c < 84 { Op::Vacuum } else if maintenance && c < 88 { Op::Doctor(r.below(16) as u8) }
+        else if c < 90 { Op::Commit } else if c < 95 { Op::Reopen } else { Op::Crash };
 
         let (region_b, pending_b, _, _) = memvid_core::verif_hooks::wal_stats(d.mem());
         if std::env::var("MV_DEBUG").is_ok() { eprintln!("op {} {:?} wal {:?}", i, op, memvid_core::verif_hooks::wal_stats(d.mem())); }
@@ -116,7 +117,9 @@ pub fn run_history(r: &mut Rng, nops: usize, profile: u64) -> History {
         }
         ops_terms.push(obs.op_term); outs.push(obs.out_term);
         // ---- compare at quiescent points ----
-        let quiescent = matches!(op, Op::Commit | Op::Reopen | Op::Crash) || obs.auto_committed;
+        let quiescent = matches!(op, Op::Commit | Op::Reopen | Op::Crash | Op::Vacuum | Op::Doctor(_)) || obs.auto_committed;
+        if let Op::Doctor(_) = op { if let Some(st) = d.last_doctor.clone() { if st == "panic" || st.starts_with("error") || st == "Failed" { viol.get_or_insert(format!("doctor-failed: op {} doctor on a healthy closed memory ended with {}", i, st)); } tags.push("doctor".into()); } }
+        if let Op::Vacuum = op { tags.push("vacuum".into()); }
         if quiescent && memvid_core::verif_hooks::wal_stats(d.mem()).1 == 0 || i + 1 == nops {
             let (tt, frames) = d.table();
             final_table = tt;
@@ -131,7 +134,7 @@ pub fn run_history(r: &mut Rng, nops: usize, profile: u64) -> History {
                     if f.id != k as u64 { viol.get_or_insert(format!("id-not-dense: frame at index {} has id {}", k, f.id)); }
                     if uri_of(&f.uri) != rf.uri { viol.get_or_insert(format!("frame-mismatch: after op {} frame {} has uri {:?}, reference {:?}", i, k, f.uri, rf.uri)); }
                     if status != rf.status { viol.get_or_insert(format!("frame-mismatch: after op {} frame {} has status {}, reference {}", i, k, status, rf.status)); }
-                    if tag != Some(rf.tag) && !(rf.role == 0 && false) { viol.get_or_insert(format!("content-mismatch: after op {} frame {} content tag {:?}, reference {}", i, k, tag, rf.tag)); }
+                    if status == 0 && tag != Some(rf.tag) { viol.get_or_insert(format!("content-mismatch: after op {} frame {} content tag {:?}, reference {}", i, k, tag, rf.tag)); }
                     if f.supersedes != rf.supersedes || f.superseded_by != rf.superseded_by { viol.get_or_insert(format!("frame-mismatch: after op {} frame {} supersedes/superseded_by {:?}/{:?}, reference {:?}/{:?}", i, k, f.supersedes, f.superseded_by, rf.supersedes, rf.superseded_by)); }
                 }
             }
@@ -142,17 +145,21 @@ pub fn run_history(r: &mut Rng, nops: usize, profile: u64) -> History {
     if autos > 0 { tags.push("autocheckpoint".into()); }
     if grows > 0 { tags.push("walgrowth".into()); }
     if crossed_edge > 0 { tags.push("ended_within_48_of_region_end".into()); }
+    tags.sort(); tags.dedup();
     tags.push(format!("profile{}", profile));
     let nontrivial = autos > 0 || grows > 0 || crossed_edge > 0;
     History { ops_terms, outs, violation: viol, tags, final_table, nontrivial }
 }
 
-pub fn run(seed: u64, n: usize, w: &mut dyn std::io::Write) {
+pub fn run(seed: u64, n: usize, w: &mut dyn std::io::Write) { run_with(seed, n, w, false) }
+pub fn run_c06(seed: u64, n: usize, w: &mut dyn std::io::Write) { run_with(seed ^ 0x60606, n, w, true) }
+
+fn run_with(seed: u64, n: usize, w: &mut dyn std::io::Write, maintenance: bool) {
     let mut r = Rng::new(seed ^ 0xC01);
     for i in 0..n {
         let profile = (i % 4) as u64;
         let nops = match profile { 0 => r.range(5, 60), 1 => r.range(30, 70), _ => r.range(10, 50) } as usize;
-        let h = run_history(&mut r, nops, profile);
+        let h = run_history(&mut r, nops, profile, maintenance);
         let input = T::L(h.ops_terms.clone());
         let output = T::Tup(vec![T::L(h.outs.clone()), h.final_table.clone()]);
         let key = blake3::hash(input.coq().as_bytes()).to_hex()[..16].to_string();
